@@ -28,6 +28,72 @@ CLAIMED = {
              'of the recursion decorator on normal and exceptional exit.',
         note='Wall-clock behaviour of whole queries and polynomial scaling are not decided; limits are read from '
              'jedi.inference.recursion at run time; funcdefs are abstract identities.'),
+    'C04': dict(
+        text='Bounded symbolic model checking of the completion algebra: helpers.match/_fuzzy_match against prefix / '
+             'subsequence references; completion.filter_names + classes.Completion (complete, name_with_symbols, '
+             'prefix length, de-duplication, completeness of the filter) over symbolic fragment and candidate names; the '
+             'sort key of Completion.complete against the documented order. str.lower() is modelled exactly over an '
+             'alphabet that contains U+0130.',
+        note='Attribute completeness against live objects is NOT decided (needs the evaluator). Identifiers are over '
+             'the alphabet {a,A,b,_,U+0130}, |fragment|<=2(3), |name|<=3(4), <=2(3) candidates; candidate names are '
+             'stubs; add_bracket_after_function=False.'),
+    'C07': dict(
+        text='Bounded symbolic model checking of Refactoring.get_changed_files (which files move under a rename: '
+             'exactly the renamed path and the paths below it, for every way a path text can relate to the renamed '
+             'path) and of ChangedFile/Refactoring.apply with recording open()/rename stubs (nothing touched before '
+             'apply, each file written once with newline="" and exactly get_new_code(), renames after writes, '
+             'path=None => RefactoringError).',
+        note='difflib, parso\'s RefactoringNormalizer and the real file system are trusted/stubbed; the diff text '
+             'itself and byte preservation by the normalizer are not decided in this round.'),
+    'C08': dict(
+        text='Derived caches as inductive steps from arbitrary cache states: the definition-name cache and the '
+             'parent-scope cache are keyed on the tree-version object and never serve another version; the signature '
+             'time cache key always contains an identity-compared match object (so two buffers never share a key) over '
+             'symbolic code lines and positions; the time cache under a symbolic clock.',
+        note='parso replacing the cache entry on every re-parse is assumed (the property itself assumes a faithful '
+             'incremental parse); whole-engine edit histories are not explored; call_signatures_validity is the integer 3.'),
+    'C10': dict(
+        text='Bounded symbolic model checking of (a) the relative-import level rewriting in Importer.__init__ against '
+             'importlib\'s resolve_name (reference cross-checked natively against importlib.util.resolve_name) and (b) '
+             'sys_path.transform_path_to_dotted against a path-prefix reference: for every way a sys.path entry text can '
+             'relate to the module path (not a prefix / prefix at a component boundary / prefix ending inside a '
+             'component) the dotted name is the components below the deepest parent entry.',
+        note='Module discovery is delegated to the target interpreter\'s importlib and is not decided; POSIX paths; '
+             'components are unbounded strings without "/", newline, NUL; <=2 sys.path entries, depth<=2(4).'),
+    'C12': dict(
+        text='Bounded symbolic model checking of the safe-path filter (_load_builtin_module hands only entries of the '
+             'environment\'s own sys.path to the only importing function, order kept) over symbolic path strings, and of '
+             'the sys.path swap/restore in compiled.access.load_module and subprocess.functions.get_module_info on '
+             'every outcome of the import / module search.',
+        note='The negative "no route to __import__ anywhere in the engine or helper" is NOT decided; only these kernels.'),
+    'C13': dict(
+        text='Decision-table model checking of CompiledValueFilter._get (all environment answers symbolic booleans) and '
+             'DirectObjectAccess.is_allowed_getattr (getattr_static outcome stubbed): in safe mode a descriptor hit never '
+             'becomes a getattr-backed name and no dynamic attribute access happens.',
+        note='Thin: whether getattr_static agrees with CPython attribute lookup on live objects, and the absence of '
+             'other routes to user code (__getitem__, __iter__ ...), are NOT decided.'),
+    'C14': dict(
+        text='The request/reply protocol under a symbolic fault schedule (write: ok/BrokenPipe; reply: well-formed, '
+             'error reply, EOFError, UnpicklingError; stderr read may fail): only InternalError escapes, crash flag <=> '
+             'helper unusable, a dead helper is never written to again; Environment replaces a crashed helper; '
+             'deletion-queue bookkeeping as an inductive step over arbitrary queue contents.',
+        note='Real process death, zombies, file descriptors and hangs are NOT modelled (stubs for pickle and the process).'),
+    'C16': dict(
+        text='Sort key of sorted_definitions vs Name.__eq__ over symbolic positions, paths and spellings (unequal results '
+             'are ordered identically whatever the input order, no None reaches a comparison); the temporary switches '
+             '(flow analysis in find_references, predefine_names, monkeypatch) are restored on normal and exceptional exit.',
+        note='Order effects inside inference (identity-hashed value sets, hash seeds) are NOT decided.'),
+    'C17': dict(
+        text='Projection kernels: BaseName.line/column == start_pos; get_line_code is exactly the window of code lines '
+             'around the definition for unbounded before/after over symbolic lines; get_module_names partitions tokens '
+             'into definitions/references.',
+        note='Thin: that every Name points at its own token and is_definition() matches Python binding is NOT decided.'),
+    'C20': dict(
+        text='save()/load() round trip of every constructor setting with a JSON model (identity on JSON values, '
+             'TypeError otherwise) over symbolic strings / Path values; composition of the effective sys.path '
+             '(_get_sys_path) against the documented order with symbolic entries, script location and __init__.py '
+             'presence per ancestor.',
+        note='get_default_project discovery on a real disk and buildout paths are not decided; json/open/mkdir are stubs.'),
 }
 
 NOT_APPLICABLE = {
@@ -35,5 +101,5 @@ NOT_APPLICABLE = {
            'and file-system timestamp granularity; jedi itself contributes no arithmetic/string/state-machine logic '
            'that can be encoded - a stub-everything model would verify the stub (DESIGN.md §5).',
 }
-for _p in ('C02', 'C03', 'C04', 'C05', 'C06', 'C07', 'C08', 'C10', 'C12', 'C13', 'C14', 'C16', 'C17', 'C18', 'C19', 'C20'):
+for _p in ('C02', 'C03', 'C05', 'C06', 'C18', 'C19'):
     NOT_APPLICABLE[_p] = _PENDING
